@@ -237,6 +237,7 @@ inline std::string seedDistribution(Rng& r, int depth)
     return s + ")";
   }
   if (f == "Invariant" && depth > 0) return f + "(dist=" + seedDistribution(r, depth - 1) + ",p=0." + std::to_string(r.range(1, 9)) + ")";
+  if (f == "Mixture" && r.chance(1, 5)) return r.coin() ? "Mixture(probas=())" : "Mixture(probas=(1),dist1=" + seedDistribution(r, depth > 0 ? depth - 1 : 0) + ")";
   if (f == "Mixture" && depth > 0)
     return f + "(probas=" + (r.chance(1, 3) ? vectorValues()[r.below(vectorValues().size())] : std::string("(0.5,0.5)")) + ",dist1=" + seedDistribution(r, depth - 1) + ",dist2=" + seedDistribution(r, depth - 1) + ")";
   std::string s = f + "(n=" + std::to_string(r.range(0, 9));
@@ -391,6 +392,37 @@ inline std::vector<std::string> dictDistributions()
         for (const char* v : {"(V1)", "(V1[)", "(V1[;])", "(V[0;1])", "(V0[0;1])", "(V9[1;0])", "(V1[0;1],V1[0;1])", "(Vx[0;1])", "(V1[nan;inf])", "V1[0;1]", "([;])"})
           out.push_back(render(i, v, false));
     }
+  }
+  // list-taking families with mutually consistent lists of length 0, 1, 2 (zero components, one component, ...),
+  // alone and nested in Invariant / Mixture
+  std::vector<std::string> cores;
+  for (size_t n = 0; n <= 2; ++n)
+  {
+    std::string vals, probs, dists;
+    for (size_t i = 0; i < n; ++i)
+    {
+      vals += (i ? "," : "") + std::to_string(i + 1);
+      probs += (i ? "," : "") + std::string(n == 1 ? "1" : "0.5");
+      dists += ",dist" + std::to_string(i + 1) + "=Constant(value=" + std::to_string(i + 1) + ")";
+    }
+    cores.push_back("Simple(values=(" + vals + "),probas=(" + probs + "))");
+    cores.push_back("Simple(values=(" + vals + "),probas=(" + probs + "),ranges=())");
+    if (n >= 1) cores.push_back("Simple(values=(" + vals + "),probas=(" + probs + "),ranges=(V1[0;9]))");
+    cores.push_back("Mixture(probas=(" + probs + ")" + dists + ")");
+    cores.push_back("Mixture(" + (dists.empty() ? std::string() : dists.substr(1) + ",") + "probas=(" + probs + "))");
+  }
+  cores.push_back("Mixture()");
+  cores.push_back("Simple()");
+  cores.push_back("Mixture(probas=(1),dist1=Simple(values=(),probas=()))");
+  for (const auto& c : cores)
+  {
+    out.push_back(c);
+    out.push_back("Invariant(dist=" + c + ",p=0.1)");
+    out.push_back("Invariant(dist=" + c + ")");
+    out.push_back("Mixture(probas=(1),dist1=" + c + ")");
+    out.push_back("Mixture(probas=(0.5,0.5),dist1=" + c + ",dist2=Constant(value=7))");
+    out.push_back("Mixture(probas=(0.5,0.5),dist1=Constant(value=7),dist2=" + c + ")");
+    out.push_back("Invariant(dist=Mixture(probas=(1),dist1=" + c + "),p=0.1)");
   }
   return out;
 }
